@@ -40,11 +40,11 @@ theorem meas_stepW {wid : Nat} (hf : NoFaults s.cfg) (hwc : WellCfg s.cfg) (hL :
   unfold wWeight at hmw
   generalize hT : (if w.held.isSome = true then 20 else 0) = T at hmw
   generalize hT' : (if w'.held.isSome = true then 20 else 0) = T' at hmw
-  have hmr : ∀ q, s'.replQ = q → mR s' = 7 * someCount q + noneCount q + rOff s.rpc := by
+  have hmr : ∀ q, s'.replQ = q → mR s' = 8 * someCount q + noneCount q + rOff s.rpc := by
     intro q hq; unfold mR; rw [hq, hs.rpc]
   have hmq : ∀ q1 q2, s'.resQ = q1 → s'.workQ = q2 → mQ s' = 20 * q1.length + 33 * someCount q2 := by
     intro q1 q2 h1 h2; unfold mQ; rw [h1, h2]
-  have hmr0 : mR s = 7 * someCount s.replQ + noneCount s.replQ + rOff s.rpc := rfl
+  have hmr0 : mR s = 8 * someCount s.replQ + noneCount s.replQ + rOff s.rpc := rfl
   have hmq0 : mQ s = 20 * s.resQ.length + 33 * someCount s.workQ := rfl
   have hsame : w'.held = w.held → T' = T := by intro e; rw [← hT, ← hT', e]
   have hnone : w'.held = none → T' = 0 := by intro e; rw [← hT', e]; rfl
@@ -87,14 +87,10 @@ theorem meas_stepW {wid : Nat} (hf : NoFaults s.cfg) (hwc : WellCfg s.cfg) (hL :
     have := hnone hh; have := hsome0 i hheld
     simp only [List.length_append, List.length_singleton]
     rcases hpc' with hp | ⟨hp, _⟩ <;> rw [hpc, hp] at hmw <;> simp only [wOff] at hmw <;> omega
-  · -- retire
+  · -- retire: the wid is posted, `end()` still to run
     rw [hpc, hpc'] at hmw; simp only [wOff] at hmw
     rw [hmr _ hpq, hmq _ _ hrq hwq, hmr0, ← hmq0, someCount_append_some, noneCount_append_some]
     have := hnone hh; omega
-  · -- retire with a join timeout: the wid is posted, `end()` still to run
-    rw [hpc, hpc'] at hmw; simp only [wOff] at hmw
-    rw [hmr _ hpq, hmq _ _ hrq hwq, hmr0, ← hmq0, someCount_append_some, noneCount_append_some]
-    have := hsame hh; omega
   · -- `end()` of a retired worker
     rw [hpc, hpc'] at hmw; simp only [wOff] at hmw
     rw [hmr _ hpq, hmq _ _ hrq hwq, ← hmr0, ← hmq0]; have := hnone hh; omega
